@@ -165,6 +165,62 @@ class C05(Check):
             nontriv += 1
             if got is None or not core.close(got, exp, 1e-12):
                 viol.append(dict(key=dl[t], got=dans[t], expected='value %r = N_A/A x kernel %r x factor %r (q = %r)' % (exp, kv, fv, q), what='differential identity violated'))
+        # ---- the Kissel aggregates in the REGENERATED-Kissel configuration (they all fail in the shipped one): photo total = occupancy-weighted
+        #      sum of the sub-shell cross sections, total = photo + Rayleigh + Compton, unit twins; with a slot and without; energies on both sides of
+        #      EVERY sub-shell edge of the element and in the middle of every window between neighbouring edges (edge order is not shell order)
+        kn = 0
+        try:
+            suf = ctx.build_kissel_config('real'); kexe = ctx.sc.path('cdrv' + suf)
+            Zs = list(range(1, 100)) if ctx.tier == 'thorough' else sorted(ctx.rng.sample(range(1, 100), 14) + [82, 79])
+            q = ['EdgeEnergy %d %d N' % (Z, sh) for Z in Zs for sh in range(28)] + ['ElectronConfig %d %d N' % (Z, sh) for Z in Zs for sh in range(31)]
+            pv = {l[:-2]: core.parse_answer(o)['vals'][0] for l, o in zip(q, ctx.run_c(q, exe=kexe))}
+            kl = []; kplan = []
+            for Z in Zs:
+                ed = sorted({pv['EdgeEnergy %d %d' % (Z, sh)] for sh in range(28) if pv['EdgeEnergy %d %d' % (Z, sh)] > 0})
+                Es = [e * f for e in ed for f in (1 - 1e-6, 1 + 1e-6)] + [(a * b) ** 0.5 for a, b in zip(ed, ed[1:])] + [0.05, 0.09, 0.5, 5.0, 50.0, 500.0, 900.0]
+                if ctx.tier != 'thorough': Es = ctx.rng.sample(Es, min(len(Es), 40))
+                occ = [(sh, pv['ElectronConfig %d %d' % (Z, sh)]) for sh in range(31) if pv['ElectronConfig %d %d' % (Z, sh)] > 1e-6]
+                for E in Es:
+                    kplan.append((Z, E, occ))
+                    for mode in 'EN':
+                        for fn in ('CSb_Photo_Total', 'CS_Photo_Total', 'CS_Total_Kissel', 'CSb_Total_Kissel', 'CS_Rayl', 'CS_Compt'):
+                            kl.append('%s %d %s %s' % (fn, Z, hx(E), mode))
+                    for sh, _ in occ: kl.append('CSb_Photo_Partial %d %d %s N' % (Z, sh, hx(E)))
+                    kl.append('AtomicWeight %d N' % Z)
+            kl = list(dict.fromkeys(kl))
+            ka = dict(zip(kl, ctx.run_c(kl, exe=kexe)))
+            def kv(l):
+                p_ = core.parse_answer(ka[l])
+                if p_['kind'] != 'ok': return 'bad'
+                if p_['slot'] in ('E', 'N'): return p_['vals'][0]
+                return None if p_['vals'][0] == 0 else 'bad'
+            for Z, E, occ in kplan:
+                aw = kv('AtomicWeight %d N' % Z)
+                parts = [(kv('CSb_Photo_Partial %d %d %s N' % (Z, sh, hx(E))), o_) for sh, o_ in occ]
+                if any(p_ == 'bad' for p_, _ in parts) or aw in ('bad', None, 0.0): continue
+                psum = sum((p_ or 0.0) * o_ for p_, o_ in parts)
+                for mode in 'EN':
+                    got = {fn: kv('%s %d %s %s' % (fn, Z, hx(E), mode)) for fn in ('CSb_Photo_Total', 'CS_Photo_Total', 'CS_Total_Kissel', 'CSb_Total_Kissel', 'CS_Rayl', 'CS_Compt')}
+                    def judge(fn, exp, what):
+                        nonlocal kn
+                        kn += 1
+                        g_ = got[fn]; line = '%s %d %s %s  @real' % (fn, Z, hx(E), mode)
+                        if g_ == 'bad': viol.append(dict(key=line, got=ka[line[:-7]], expected='a value or a proper failure', what=what)); return
+                        if exp is None:
+                            if g_ not in (None, 0.0): viol.append(dict(key=line, got=ka[line[:-7]], expected='fails (a part is undefined)', what=what + ': a number although a part is undefined'))
+                        elif g_ is None or g_ == 0.0 or not core.close(g_, exp, 1e-12):
+                            viol.append(dict(key=line, got=ka[line[:-7]], expected='value %r' % exp, what=what))
+                    pe = psum if psum > 0 and E > 0 else None
+                    judge('CSb_Photo_Total', pe, 'Kissel photo total = occupancy-weighted sum of the sub-shell cross sections')
+                    pcm = None if pe is None else pe * AVOGNUM / aw
+                    judge('CS_Photo_Total', pcm, 'CS_Photo_Total = CSb_Photo_Total x N_A / A')
+                    r_, c_ = got['CS_Rayl'], got['CS_Compt']
+                    tk = None if (pcm is None or r_ in (None, 'bad', 0.0) or c_ in (None, 'bad', 0.0)) else (pcm + r_) + c_
+                    judge('CS_Total_Kissel', tk, 'CS_Total_Kissel = CS_Photo_Total + CS_Rayl + CS_Compt')
+                    judge('CSb_Total_Kissel', None if tk is None else tk * aw / AVOGNUM, 'CSb_Total_Kissel = CS_Total_Kissel x A / N_A')
+        except core.BuildError as ex:
+            viol.append(dict(key='regenerated-Kissel configuration', got=str(ex)[:300], expected='builds', what='data/kissel -> kissel_pe.dat -> prdata'))
+        stats['kissel_identity_cases'] = kn
         # ---- the executable specifications of Props/C05*.lean (Spec.CS_Total, Spec.DCS_Rayl, …) against the real library
         SPEC_FNS = {'CS_Total', 'CSb_Total', 'CSb_Photo', 'CSb_Rayl', 'CSb_Compt', 'DCS_Rayl', 'DCS_Compt', 'DCSb_Rayl', 'DCSb_Compt',
                     'DCSP_Rayl', 'DCSP_Compt', 'DCSPb_Rayl', 'DCSPb_Compt'}
@@ -190,6 +246,6 @@ class C05(Check):
                           'non-trivial = cases where all parts are defined',
                      distinct_nontrivial=nontriv, differential_identities=dn,
                      samples=[dict(call=lines[plan[i][1]], impl=ans[plan[i][1]], parts=[ans[j] for j in plan[i][2]]) for i in (0, len(plan) // 2, len(plan) - 1)])
-        return len(plan) + len(dplan) + ns, viol, stats
+        return len(plan) + len(dplan) + ns + kn, viol, stats
 
 CHECK = C05()
